@@ -44,10 +44,13 @@ try:
     ddir = os.path.dirname(files[0])
     pk = re.search(r"(?m)^package (\w+)", open(demo).read()).group(1)
     # choose the directory whose package name matches
-    cand = [ddir] + ([m.group(1).strip("/")] if m else [])
+    cand = ([m.group(1).strip("/")] if m else []) + [ddir]
     for c in cand:
         if os.path.isdir(os.path.join(mut, c)):
-            srcs = [f for f in os.listdir(os.path.join(mut, c)) if f.endswith(".go") and not f.endswith("_test.go")]
+            srcs = [f for f in os.listdir(os.path.join(mut, c)) if f.endswith(".go") and not f.endswith("_test.go")] or [f for f in os.listdir(os.path.join(mut, c)) if f.endswith(".go")]
+            if m and c == m.group(1).strip("/") and open(demo).read().lstrip().startswith("// place in"):
+                ddir = c  # explicit placement header
+                break
             if srcs and re.search(r"(?m)^package (\w+)", open(os.path.join(mut, c, srcs[0])).read()).group(1) == pk.replace("_test", ""):
                 ddir = c
                 break
